@@ -224,6 +224,22 @@ def clause2_noid(ctx, P):
         ctx.ob("C02.2 R-PAIR", f, Q.ordinal_site(f, c, P) + ":id-source", good,
                "response id is taken from %s, expected the request's id member or the routing entry's origin id" % fmt_term(id_t))
     ctx.floor("C02.2 R-GATE", 5)
+    # the *_from_request constructors take the id from the object they are given: that object is the request the calling function
+    # was handed (a parameter), never a message the function built itself (a routed message carries the ROUTED id)
+    nfr = 0
+    badr = None
+    for c in Q.call_sites(P, ("create_error_response_from_request", "create_success_response_from_request", "create_result_response_from_request")):
+        f = c.fn
+        if f.srcname.endswith("_from_request"):
+            continue
+        nfr += 1
+        rt = P.term(f, c.a[1])
+        if rt[0] != "param" and badr is None:
+            badr = (f, c, rt)
+    ctx.ob("C02.2 R-PAIR", "own-code", "from-request-constructors-get-the-request", badr is None and nfr >= 60,
+           ("%s() builds an answer from %s at %s instead of from the request it was handed: the answer carries another id than the "
+            "request (the routed id, say)" % (badr[0].srcname, fmt_term(badr[2])[:60], badr[1].loc)) if badr else
+           "%d answers built from the handler's own request parameter" % nfr)
     # param-id helper callers must pass the origin id
     ssr = P.fn("router.c:send_shutdown_response", required=False)
     if ssr is not None:
@@ -364,10 +380,31 @@ def clause6_batch(ctx, P):
                         bound_ok = True
         ctx.ob("C02.6 R-LOOP", arr, "dispatch:item-i", ok and idx_ok and bound_ok,
                "batch items are not dispatched as item i for i = 0..size-1 in increasing order (item=%s)" % fmt_term(t))
+    # a request whose handling failed (-1: its answer could not be written, the connection is to be closed) ends the batch: nothing
+    # of the later elements is processed or answered behind it
+    badb = None
+    nb = 0
+    for p_ in P.paths(arr, loop_iters=2):
+        v = Q.PathView(P, arr, p_)
+        failed_at = None
+        k = 0
+        for (blk, atom, pol) in v.path:
+            if atom is not None and failed_at is None and atom[0] == "cmp" and Q.is_call_to(atom[2], "parse_json_rpc") and \
+                    ((atom[3] == ("const", -1) and Q._poleq(atom, pol)) or (atom[3] == ("const", 0) and (atom[1] if pol else Q.negate_pred(atom[1])) in ("slt", "ne"))):
+                failed_at = k
+            elif failed_at is not None and any(i.id == cs[0].id for i in arr.blocks[blk]):
+                badb = v
+            k += 1
+        if failed_at is not None:
+            nb += 1
+    ctx.ob("C02.6 R-LOOP", arr, "batch-ends-at-the-first-failure", badb is None and nb > 0,
+           "parse_json_array() goes on dispatching batch elements after one of them has failed with -1: their answers are written "
+           "behind a response that could not be completed (a torn frame), on a connection that is about to be closed",
+           witness=badb.witness() if badb else None)
     callers = P.callers_of(d)
     ctx.ob("C02.6 R-WHO", d, "dispatch:callers", all(c.fn.key in ("parse.c:parse_json_array", "parse.c:parse_message") for c in callers),
            "object dispatcher called from an unexpected place")
-    ctx.floor("C02.6 R-LOOP", 2)
+    ctx.floor("C02.6 R-LOOP", 3)
 
 
 def clause7_one_of(ctx, P):
